@@ -11,6 +11,8 @@ What runs (props/engine_common.run_engine_check):
   * pre-checks: mech.check_mechanisms (coq/limiter re-checked + statement shape of runContChecks / contChecksPassing /
     the drains regenerated from the source under test) and smgraph.check_smgraph (state graph regenerated from the
     source; deferred_checks_dominate_end*, block_end_only_through_block_deferred);
+  * harness option `-deferred 0.7`: every scope without a deferred group gets one with probability 0.7 (it fails with
+    probability 0.2), so that the scope that fails usually HAS a deferred group;
   * profile `cont` (failure injected at the k-th run of a continuous check, k = 1..6 and none, plan / block / both, the
     director releasing the held sequences one by one with pauses of 0..2.5 check periods so that the k-th run falls
     before / after each sequence boundary and into the window between the last poll and the drain; other groups and
@@ -54,6 +56,7 @@ def run(ctx):
         extra_header="From Coercion.C07 Require Import MonC07.",
         monitors=mons,
         release_obligation=False,
+        harness_args=["-deferred", "0.7"],
         multi_quick=21, multi_thorough=252,
         proj="c07",
         pre_checks=[mech.check_mechanisms, smgraph.check_smgraph],
